@@ -222,3 +222,57 @@ func VerifC17Unlink() {
 	_, err = fs.Stat("f")
 	verifAssert(err != nil && errors.Is(err, hackpadfs.ErrNotExist), "I/O through a handle opened before Remove/Rename made the old name exist again")
 }
+
+// c17NoSeekFS: a source file system whose files offer no Seek (so the cache cannot rewind the handle it
+// copied from and has to re-open the file from its store).
+type c17NoSeekFS struct{ fs *mem.FS }
+
+type c17NoSeekFile struct{ f hackpadfs.File }
+
+func (n c17NoSeekFile) Stat() (hackpadfs.FileInfo, error) { return n.f.Stat() }
+func (n c17NoSeekFile) Read(p []byte) (int, error)        { return n.f.Read(p) }
+func (n c17NoSeekFile) Close() error                      { return n.f.Close() }
+func (n c17NoSeekFile) ReadDir(k int) ([]hackpadfs.DirEntry, error) {
+	return hackpadfs.ReadDirFile(n.f, k)
+}
+
+func (s c17NoSeekFS) Open(name string) (hackpadfs.File, error) {
+	f, err := s.fs.Open(name)
+	if err != nil {
+		return nil, err
+	}
+	return c17NoSeekFile{f}, nil
+}
+
+// VerifC17CacheHandle: the handle the cache returns from the first Open of a file (the one that fills the
+// cache) is a valid, open handle - also when the source's files cannot seek - and stays valid while other
+// handles of the same file are opened and closed.
+func VerifC17CacheHandle() {
+	src, err := mem.NewFS()
+	verifAssert(err == nil, "NewFS failed")
+	data := verifBytes("data", 2)
+	verifAssert(hackpadfs.WriteFullFile(src, "f", data, 0644) == nil, "WriteFullFile failed")
+	store, err := mem.NewFS()
+	verifAssert(err == nil, "NewFS failed")
+	var source hackpadfs.FS = src
+	if verifChoice("source-seekable", 2) == 0 {
+		source = c17NoSeekFS{src}
+		verifTag("source", "files without Seek")
+	}
+	cfs, err := cache.NewReadOnlyFS(source, store, cache.ReadOnlyOptions{})
+	verifAssert(err == nil, "NewReadOnlyFS failed")
+	f, err := cfs.Open("f")
+	verifAssert(err == nil, "first Open failed")
+	if verifChoice("other-handle", 2) == 1 {
+		g, err := cfs.Open("f")
+		verifAssert(err == nil, "second Open failed")
+		verifAssert(g.Close() == nil, "Close of the second handle failed")
+	}
+	verifReach("opened")
+	buf := make([]byte, 2)
+	n, err := f.Read(buf)
+	verifAssert(n == 2 && (err == nil || err == io.EOF) && buf[0] == data[0] && buf[1] == data[1], "the handle returned by the first Open cannot be read (closed or empty)")
+	_, err = f.Stat()
+	verifAssert(err == nil, "Stat on the handle returned by the first Open failed")
+	verifAssert(f.Close() == nil, "Close of the handle returned by the first Open failed")
+}
